@@ -30,12 +30,14 @@ package utils
 //                          scheduler_util.(*PriorityQueue).Push [keepsBestNew]; here it would need a spec term for the
 //                          interface value boxing `job`, which the contract language does not have.)
 //  [inv]                   the object invariant is kept
-// Linking a NEW leaf into the tree is done by ensureAncestorChainForPush (TRUSTED, below); an existing leaf is not relinked.
+// Linking a NEW leaf into the tree is done by ensureAncestorChainForPush (below; one trusted clause); an existing leaf is not relinked.
 //@ func (*JobsOrderByQueues).PushJob
 //@   props C06 C16 C10 C03
 //@   requires jo != nil && job != nil
 //@   requires [sessionKnown] jo.ssn != nil && jo.ssn.ClusterInfo != nil
 //@   requires [queueKnown] job.Queue in jo.ssn.ClusterInfo.Queues && jo.ssn.ClusterInfo.Queues[job.Queue] != nil
+//@   assume [queuesNonNil] forall q in jo.ssn.ClusterInfo.Queues :: jo.ssn.ClusterInfo.Queues[q] != nil
+//@   note assume [queuesNonNil]: snapshot construction never stores a nil *QueueInfo (needed for the ancestors of the job's queue; the job's own queue is a precondition)
 //@   assume mapOK(jo) && parentsOK() && jo.queueNodes != nil
 //@   note assume: object invariant (mapOK, parentsOK: proved at exit of PushJob and PopNextJob); NewJobsOrderByQueues always makes queueNodes
 //@   modifies pushed(job), jo.queueNodes[*], jo.rootNodes, family(jo.rootNodes.queue), family(jo.rootNodes.maxQueueSize), family(jo.queueNodes[job.Queue].queue), family(jo.queueNodes[job.Queue].children), family(jo.queueNodes[job.Queue].needsReorder), family(jo.queueNodes[job.Queue].parent), family(jo.queueNodes[job.Queue].isLeaf), family(jo.rootNodes.queue.items[*])
@@ -54,21 +56,23 @@ package utils
 // the job's queue is a leaf queue (has no child queues)
 //@ define leafQ(jo *JobsOrderByQueues, job *podgroup_info.PodGroupInfo) bool = len(jo.ssn.ClusterInfo.Queues[job.Queue].ChildQueues) == 0
 
-// ensureAncestorChainForPush: TRUSTED. Links a new node under the node of its parent queue (created on demand, and
-// then linked in turn) or, for a top-level queue, into rootNodes. Assumed: it only ADDS registrations, keeps the
-// object invariant, pushes into rootNodes / into the children queues of OTHER (inner) nodes only - the node's own
-// children queue is left alone - and (C10) when the parent queue is unknown it links nothing: the node stays
-// registered but unreachable from rootNodes, so its jobs are never returned by PopNextJob.
+// ensureAncestorChainForPush: links a new node under the node of its parent queue (created on demand, and then linked
+// in turn) or, for a top-level queue, into rootNodes. Body verified: (C10) no panic, it only ADDS registrations, keeps
+// the object invariant, and when the parent queue is unknown it links nothing ([orphanNotLinked]: the node stays
+// registered but unreachable from rootNodes, so its jobs are never returned by PopNextJob). One TRUSTED clause:
+// [childQueueUntouched] - it pushes into rootNodes / into the children queues of OTHER (inner) nodes only, the node's own
+// children queue is left alone (needs "distinct priority queues own disjoint backing arrays" and "a queue is not its own
+// ancestor", which the engine cannot carry). Partial correctness (termination: the queue hierarchy is acyclic).
 //@ func (*JobsOrderByQueues).ensureAncestorChainForPush
 //@   props C10 C16
-//@   trusted
-//@   note trusted: recursion over the queue hierarchy; the clause [childQueueUntouched] needs "distinct priority queues own disjoint backing arrays" and "a queue is not its own ancestor", neither of which the engine can carry (see the data invariant above). Its body was checked for panics separately only by reading: every dereference is of jo, childNode, childQueue, jo.ssn.ClusterInfo, a Queues entry (non-nil by snapshot construction) or a registered node (mapOK).
 //@   requires jo != nil && childNode != nil && childQueue != nil && jo.ssn != nil && jo.ssn.ClusterInfo != nil
+//@   requires [queuesNonNil] forall q in jo.ssn.ClusterInfo.Queues :: jo.ssn.ClusterInfo.Queues[q] != nil
+//@   requires [inv] mapOK(jo) && parentsOK() && jo.queueNodes != nil && childNode.children != nil && childNode.queue != nil
 //@   modifies jo.queueNodes[*], jo.rootNodes, family(jo.rootNodes.queue), family(jo.rootNodes.maxQueueSize), family(childNode.parent), family(jo.rootNodes.queue.items[*])
 //@   ensures [onlyAdds] forall q common_info.QueueID :: old(q in jo.queueNodes) ==> q in jo.queueNodes && jo.queueNodes[q] == old(jo.queueNodes[q])
-//@   ensures [inv] old(mapOK(jo) && parentsOK() && childNode.children != nil && childNode.queue != nil) ==> mapOK(jo) && parentsOK()
-//@   ensures [childQueueUntouched] childNode.children.maxQueueSize == old(childNode.children.maxQueueSize) && childNode.children.queue.lessFn == old(childNode.children.queue.lessFn) && len(childNode.children.queue.items) == old(len(childNode.children.queue.items)) && samearray(childNode.children.queue.items, old(childNode.children.queue.items)) && (forall i int :: 0 <= i && i < len(childNode.children.queue.items) ==> childNode.children.queue.items[i] == old(childNode.children.queue.items[i]))
+//@   ensures [inv] mapOK(jo) && parentsOK()
 //@   ensures [orphanNotLinked] old(childQueue.ParentQueue != "" && !(childQueue.ParentQueue in jo.ssn.ClusterInfo.Queues)) ==> jo.rootNodes == old(jo.rootNodes) && childNode.parent == old(childNode.parent) && (forall q common_info.QueueID :: (q in jo.queueNodes) == old(q in jo.queueNodes))
+//@   trust [childQueueUntouched] childNode.children.maxQueueSize == old(childNode.children.maxQueueSize) && childNode.children.queue.lessFn == old(childNode.children.queue.lessFn) && len(childNode.children.queue.items) == old(len(childNode.children.queue.items)) && samearray(childNode.children.queue.items, old(childNode.children.queue.items)) && (forall i int :: 0 <= i && i < len(childNode.children.queue.items) ==> childNode.children.queue.items[i] == old(childNode.children.queue.items[i]))
 //@ end
 
 // C06: "Reclaim, preempt and consolidation never evict pods of non-preemptible workloads": a job is
@@ -223,23 +227,26 @@ package utils
 //@   ensures [nodeQueue] nodeQueue(pq)
 //@   ensures [top] result != nil ==> len(pq.queue.items) > 0 && qnOf(pq.queue.items[0]) == result && result.children != nil && result.queue != nil && len(result.children.queue.items) > 0
 //@   ensures [foundUnlessAnEmptyNodeIsLinked] old(len(pq.queue.items) > 0 && (forall i int :: 0 <= i && i < len(pq.queue.items) ==> len(qnOf(pq.queue.items[i]).children.queue.items) > 0)) ==> result != nil
+//@   trust [innerNodeHoldsNodes] result != nil && !result.isLeaf ==> nodeQueue(result.children)
+//@   trust [leafHoldsJobs] result != nil && result.isLeaf ==> jobQueue(result.children)
+//@   note trust [innerNodeHoldsNodes] [leafHoldsJobs]: the hereditary part of the data invariant (the children queue of a linked inner node holds nodes with queue and children, of a linked leaf non-nil jobs). Established by PushJob / ensureAncestorChainForPush (they push exactly such elements); carrying it for the queues of OTHER nodes across their allocations is what the engine cannot do (see the data invariant above).
 //@ end
 
-// traverseToLeaf: TRUSTED. Walks getNextNode down from a queue of nodes to a leaf. Assumed: it re-sifts only
-// queues of inner nodes / rootNodes and clears needsReorder flags; the leaf it returns is a linked leaf: it has a
-// queue, its children queue holds at least one element, all of them non-nil jobs, and traversal did not touch it.
-// [linkedNodesNonEmpty] (pruning invariant of handlePopFromNode / PushJob): a non-empty queue of nodes yields a leaf.
+// traverseToLeaf: walks getNextNode down from a queue of nodes to a leaf. Body verified (C10: no panic on a queue of
+// nodes, given getNextNode's clauses); three facts are TRUSTED clauses (`trust`), all of them consequences of the data
+// invariant that cannot be carried (see above): [leafUntouched] re-sifting the queues of inner nodes does not touch
+// the leaf's own queue (needs: distinct priority queues own disjoint backing arrays), [leafJobsQueueKnown] the jobs
+// of a leaf have a known queue (PushJob's precondition, job.Queue and the Queues map unchanged since), and
+// [linkedNodesNonEmpty] the pruning invariant of handlePopFromNode / PushJob: no empty node is linked, so a
+// non-empty queue of nodes leads to a leaf. Partial correctness (termination: the tree is finite and acyclic).
 //@ func (*JobsOrderByQueues).traverseToLeaf
 //@   props C10 C16 C05
-//@   trusted
-//@   note trusted: the recursion over the node tree needs the hereditary data invariant "the children queue of an inner node holds nodes, of a leaf holds non-nil jobs, and distinct priority queues own disjoint backing arrays" (to know that re-sifting one queue leaves the others alone); its preservation across the allocations of PushJob is not expressible (see above). getNextNode, the step function, is verified.
-//@   requires pq != nil
+//@   requires nodeQueue(pq)
 //@   modifies family(pq.queue.items[*]), family(qnOf(pq.queue.items[0]).needsReorder)
 //@   ensures [leaf] result != nil ==> result.isLeaf && result.queue != nil && result.children != nil && len(result.children.queue.items) > 0 && jobQueue(result.children)
-//@   ensures [leafUntouched] result != nil ==> samearray(result.children.queue.items, old(result.children.queue.items)) && (forall i int :: 0 <= i && i < len(result.children.queue.items) ==> result.children.queue.items[i] == old(result.children.queue.items[i]))
-//@   ensures [leafJobsQueueKnown] result != nil && jo.ssn != nil && jo.ssn.ClusterInfo != nil ==> (forall i int :: 0 <= i && i < len(result.children.queue.items) ==> jobOf(result.children.queue.items[i]).Queue in jo.ssn.ClusterInfo.Queues && jo.ssn.ClusterInfo.Queues[jobOf(result.children.queue.items[i]).Queue] != nil)
-//@   note [leafJobsQueueKnown]: part of the same data invariant - only PushJob adds jobs to a leaf's queue and it requires [queueKnown]; assumes that neither job.Queue nor the session's Queues map change while the job is queued
-//@   ensures [linkedNodesNonEmpty] old(len(pq.queue.items)) > 0 ==> result != nil
+//@   trust [leafUntouched] result != nil ==> samearray(result.children.queue.items, old(result.children.queue.items)) && (forall i int :: 0 <= i && i < len(result.children.queue.items) ==> result.children.queue.items[i] == old(result.children.queue.items[i]))
+//@   trust [leafJobsQueueKnown] result != nil && jo.ssn != nil && jo.ssn.ClusterInfo != nil ==> (forall i int :: 0 <= i && i < len(result.children.queue.items) ==> jobOf(result.children.queue.items[i]).Queue in jo.ssn.ClusterInfo.Queues && jo.ssn.ClusterInfo.Queues[jobOf(result.children.queue.items[i]).Queue] != nil)
+//@   trust [linkedNodesNonEmpty] old(len(pq.queue.items)) > 0 ==> result != nil
 //@ end
 
 // handlePopFromNode: unregisters the node if it ran empty (and then its ancestors that ran empty), otherwise flags
@@ -267,8 +274,8 @@ package utils
 //@   ensures result == orderEmpty(jo)
 //@ end
 
-// PopNextJob. Verified against its body, the verified contracts of scheduler_util.PriorityQueue and of
-// handlePopFromNode, and the TRUSTED contract of traverseToLeaf.
+// PopNextJob. Verified against its body and the contracts of scheduler_util.PriorityQueue, handlePopFromNode and
+// traverseToLeaf (verified bodies; the trusted CLAUSES of traverseToLeaf / getNextNode are listed there).
 //  [emptyYieldsNil]      nothing comes out of an empty order
 //  [nonEmptyYieldsJob]   (C05, as before) a non-empty order yields a job - rests on traverseToLeaf [linkedNodesNonEmpty]
 //  [pushedNotPopped]     (C03/C06) the job returned was an element of the children queue of a leaf node: it was handed
@@ -284,6 +291,8 @@ package utils
 //@   props C05 C16 C10 C03
 //@   assume jo != nil && mapOK(jo) && parentsOK() && (jo.options.VictimQueue ==> jo.poppedJobsByQueue != nil)
 //@   note assume: receiver non-nil (caller's matter) + object invariant (mapOK, parentsOK: proved at exit of PushJob and PopNextJob) + NewJobsOrderByQueues always makes poppedJobsByQueue
+//@   assume [rootHoldsNodes] jo.rootNodes != nil ==> nodeQueue(jo.rootNodes)
+//@   note assume [rootHoldsNodes]: same hereditary data invariant as getNextNode's trust clauses, for the root queue (only ensureAncestorChainForPush pushes into it, and only nodes); not re-proved at exit
 //@   modifies jo.queueNodes[*], jo.poppedJobsByQueue[*], family(jo.rootNodes.queue), family(jo.queueNodes[""].needsReorder), family(jo.rootNodes.queue.items[*])
 //@   ensures [emptyYieldsNil] old(orderEmpty(jo)) ==> result == nil
 //@   ensures [nonEmptyYieldsJob] !old(orderEmpty(jo)) ==> result != nil
